@@ -32,12 +32,10 @@ PLAN = {
 ALL_EXPR = PLAN["C05"]["units"][0][1] + PLAN["C07"]["units"][0][1]
 PLAN.update({
     "C06": {"units": [("det_decl", None)], "native": "c06", "bounded_fns": []},
-    "C08": {"units": [], "native": "c08",
-            "bounded_fns": ["constant_variable_optimization", "immutable_variables_optimization", "memory_to_calldata_optimization",
-                            "sstore_optimization", "get_32_byte_storage_variables"]},
+    "C08": {"units": [("det_state", None)], "native": "c08", "bounded_fns": []},
     "C09": {"units": [("det_gate", None)], "native": "c09",
             "bounded_fns": ["get_solidity_version_from_source_unit (regex-based version extractor: run on the whole version domain by the native check)"]},
-    "C04": {"units": [(E, ALL_EXPR), ("slots", None), ("det_decl", None), ("det_gate", None), ("det_vuln", None)], "walker": True, "native": "c04", "native_profiles": ["release", "nochecks"],
+    "C04": {"units": [(E, ALL_EXPR), ("slots", None), ("det_decl", None), ("det_gate", None), ("det_vuln", None), ("det_state", None)], "walker": True, "native": "c04", "native_profiles": ["release", "nochecks"],
             "bounded_fns": ["every detector not listed under functions_under_contract (all 30 detectors are run on the totality corpus)"]},
     "C19": {"units": [(E, ALL_EXPR), ("det_decl", None), ("det_vuln", None)], "native": "c19",
             "bounded_fns": ["detectors outside units det_expr / det_decl (whole file vs. all-but-one-item-blanked, bounded)"]},
